@@ -28,6 +28,15 @@ if used:
     extra = "\n\nIdeas ALREADY USED in an earlier round (do not repeat them or close variants; attack other clauses / other code sites / other configurations):\n" + "\n".join(used)
 extra += "\n\nIMPORTANT: never use `git stash` (the stash is shared between all worktrees of this repository and other people use sibling worktrees concurrently); to switch between clean and modified code use `git diff > /tmp/<yourname>.patch; git checkout -- .` and `git apply`. Before writing patch.diff check `git status` / `git diff` for stray hunks that are not yours. Several `fix:` commits were made recently; your worktree is at the current HEAD."
 
+if os.environ.get('MUT_FLAVOUR') == 'glue':
+    extra += ("\n\nFLAVOUR OF THIS ROUND: prefer change sites in the GLUE around the anchored code rather than in its core formulas: "
+              "shared helper modules and base classes the anchored code relies on (Utils.py, ComponentGridInfo.py, base-class methods, "
+              "RefinementObject/RefinementContainer helpers, Grid base class), default arguments and option handling (a default that "
+              "changed, an option that is no longer forwarded to a sub-object, `is`/`==`/truthiness of flags, None handling), type "
+              "conversions (int/float/numpy scalars, list vs tuple vs ndarray, copies vs views/aliasing, in-place modification of a "
+              "caller's argument), iteration-order or dict/set semantics, state carried between two calls on one object or shared "
+              "between two objects (class-level attributes, mutable default arguments), and rarely used public entry points that reach "
+              "the same code by another route. The change must still break THIS property for some input/history within its quantifier.")
 p = props[pid]
 s = (TMPL.replace('WT', '/tmp/wt/' + os.environ.get('WT_PREFIX', 'm_') + pid.lower()).replace('@title', p['title']).replace('@statement', p['statement'])
      .replace('@quant', p['quantifier']['text']).replace('@files', ', '.join(p['anchors']['files'])).replace('@n', n).replace('@pid', pid))
